@@ -183,6 +183,26 @@ func checkC07Version(c *Case, s *Stats) error {
 		off += 32 + size
 	}
 	mustLoad := len(c.Probe) > 0 && c.Probe[0] == 1
+	if !mustLoad && c.Scrib != 0 && len(mod) >= 32 {
+		// the version decides before anything else of the stream is interpreted:
+		// a newer release may have changed the rest of the header, foreign data has
+		// arbitrary bytes there
+		r := sm64{uint64(c.Scrib)}
+		switch c.Scrib % 4 {
+		case 1: // a different header size
+			hs := []uint64{0, 16, 31, 33, 48, 64, 1 << 40}[r.intn(7)]
+			for i := 0; i < 8; i++ {
+				mod[16+i] = byte(hs >> (8 * uint(i)))
+			}
+		case 2: // random header size and body size
+			for i := 16; i < 32; i++ {
+				mod[i] = byte(r.next())
+			}
+		case 3: // only the 32 header bytes, body gone
+			mod = mod[:32]
+		}
+		s.class("version_with_garbled_header_fields")
+	}
 	other, okeys := otherData(c)
 	inst := emptyTrie(c)
 	what := fmt.Sprintf("Unmarshal of a %s stream with header version %q", layoutName(c), string(ver))
